@@ -59,7 +59,7 @@ def make(r, flavor="plain", elem="L", mk="L::new()"):
     elif sh == "tuple_struct":
         generic = flavor == "generic"
         fty = "T" if generic else elem
-        items = "struct T%s(%s);" % ("<U>" if False else ("<T>" if generic else ""), ", ".join([fty] * n))
+        items = "%sstruct T%s(%s);" % ("#[repr(packed)] " if flavor == "packed" else "", "<U>" if False else ("<T>" if generic else ""), ", ".join([fty] * n))
         if r["isdrop"]:
             items += " impl%s Drop for T%s { fn drop(&mut self) {} }" % ("<T>" if generic else "", "<T>" if generic else "")
         if generic:
@@ -100,8 +100,10 @@ def runtime_case(r, flavor="plain"):
 
 
 def const_case(r, flavor="plain"):
-    """The same destructuring inside a const fn over u8 fields (const evaluation of the unsafe reads)."""
-    items, stmt, _ = make(r, flavor, elem="u8", mk="7")
+    """The same destructuring inside a const fn over u8 fields (const evaluation of the unsafe reads).
+    Packed flavour: u64 fields in a #[repr(packed)] struct, whose allocation has alignment 1 — the const
+    evaluator rejects an aligned read of such a field, whatever address the value happens to have natively."""
+    items, stmt, _ = make(r, flavor, elem="u64" if flavor == "packed" else "u8", mk="7")
     sums = []
     for q, p in enumerate(r["pats"]):
         if p == "b":
